@@ -89,6 +89,8 @@ type Config struct {
 	KeepAlive  time.Duration
 	// ResponseHeaders of the HTTP transports that take them (nil = none)
 	ResponseHeaders map[string][]string
+	// MarkErrors: the server's error presenter is proj.MarkingPresenter
+	MarkErrors bool
 }
 
 // AllTransports: the streaming transports come before POST, as the documentation says (POST accepts
@@ -123,6 +125,9 @@ func New(s *proj.Server, cfg Config) *handler.Server {
 		case "websocket":
 			h.AddTransport(transport.Websocket{KeepAlivePingInterval: cfg.KeepAlive})
 		}
+	}
+	if cfg.MarkErrors {
+		h.SetErrorPresenter(proj.MarkingPresenter)
 	}
 	rec := cfg.Recovers
 	h.SetRecoverFunc(func(ctx context.Context, err any) error {
